@@ -260,3 +260,157 @@ def _psign(eb):
 for _s, _eb in (("b", 8), ("w", 16), ("d", 32)):
     TABLE["llvm.x86.ssse3.psign.%s.128" % _s] = _psign(_eb)
     TABLE["llvm.x86.avx2.psign.%s" % _s] = _psign(_eb)
+
+
+# ---------------------------------------------------------------------------
+# memory-touching intrinsics (footprint table of DESIGN section 4/C09)
+import irterm as _ir
+
+
+def _maskmovdqu(I, ins, args, cond):
+    # SDM MASKMOVDQU: stores the bytes of xmm1 whose mask byte has its msb set to
+    # [rdi]..[rdi+15].  The instruction addresses the whole 16-byte location: "exceptions
+    # associated with addressing memory and page faults may still be signaled" even for an
+    # all-zero mask -> architectural footprint 16 bytes, no fault suppression.
+    v, m, p = args
+    base, off = _ir.split_addr(p)
+    if T.is_zero(cond):
+        return None
+    I._S.accesses.append(_ir.Access("wf", base, off, 16, cond, None, 1, False, "maskmovdqu (16-byte footprint)",
+                                    ins.get("loc")))
+    for i in range(16):
+        mb = T.slice_(m, 8 * i + 7, 1)
+        if T.is_zero(mb):
+            continue
+        I.do_store(T.add(p, T.const(64, i)), T.slice_(v, 8 * i, 8), T.and_(cond, mb), 1, "maskmovdqu",
+                   ins.get("loc"), suppressed=False)
+    return None
+
+
+TABLE["llvm.x86.sse2.maskmov.dqu"] = _maskmovdqu
+
+
+def _maskload(eb):
+    # SDM VMASKMOVPS/VPMASKMOVD (load form): element i is loaded if mask[i].msb, else 0;
+    # "faults will not occur due to referencing any memory location if the corresponding mask bit is 0"
+    def h(I, ins, args, cond):
+        p, m = args
+        n = m[1] // eb
+        out = []
+        for i in range(n):
+            mb = T.slice_(m, eb * i + eb - 1, 1)
+            if T.is_zero(mb):
+                out.append(T.const(eb, 0))
+                continue
+            v = I.do_load(T.add(p, T.const(64, i * eb // 8)), eb, T.and_(cond, mb), 1, "maskload",
+                          ins.get("loc"), suppressed=True)
+            out.append(T.select(mb, v, T.const(eb, 0)))
+        return T.concat(out)
+    return h
+
+
+def _maskstore(eb):
+    def h(I, ins, args, cond):
+        p, m, v = args
+        n = m[1] // eb
+        for i in range(n):
+            mb = T.slice_(m, eb * i + eb - 1, 1)
+            if T.is_zero(mb):
+                continue
+            I.do_store(T.add(p, T.const(64, i * eb // 8)), T.slice_(v, i * eb, eb), T.and_(cond, mb), 1,
+                       "maskstore", ins.get("loc"), suppressed=True)
+        return None
+    return h
+
+
+for _n, _eb in (("ps", 32), ("pd", 64), ("d", 32), ("q", 64)):
+    for _pre in ("llvm.x86.avx.", "llvm.x86.avx2."):
+        for _suf in ("", ".256"):
+            TABLE[_pre + "maskload." + _n + _suf] = _maskload(_eb)
+            TABLE[_pre + "maskstore." + _n + _suf] = _maskstore(_eb)
+
+
+def _gather_avx2(idx_eb, data_eb):
+    # SDM VPGATHERDD etc.: for each element with mask msb set, load [base + sext(idx)*scale]
+    def h(I, ins, args, cond):
+        src, p, idx, m, scale = args
+        if scale[0] != "const":
+            return NotImplemented
+        n = min(src[1] // data_eb, idx[1] // idx_eb)
+        out = []
+        for i in range(src[1] // data_eb):
+            if i >= n:
+                out.append(T.const(data_eb, 0))
+                continue
+            mb = T.slice_(m, data_eb * i + data_eb - 1, 1)
+            if T.is_zero(mb):
+                out.append(T.slice_(src, i * data_eb, data_eb))
+                continue
+            ix = T.sext(T.slice_(idx, i * idx_eb, idx_eb), 64)
+            addr = T.add(p, T.mul(ix, T.const(64, scale[2])))
+            v = I.do_load(addr, data_eb, T.and_(cond, mb), 1, "avx2 gather", ins.get("loc"), suppressed=True)
+            out.append(T.select(mb, v, T.slice_(src, i * data_eb, data_eb)))
+        return T.concat(out)
+    return h
+
+
+for _i, _ib in (("d", 32), ("q", 64)):
+    for _d, _db in (("d", 32), ("q", 64), ("ps", 32), ("pd", 64)):
+        for _suf in ("", ".256"):
+            TABLE["llvm.x86.avx2.gather.%s.%s%s" % (_i, _d, _suf)] = _gather_avx2(_ib, _db)
+
+
+def _gather512(idx_eb, data_eb):
+    # (src, ptr, idx, k-mask, scale)
+    def h(I, ins, args, cond):
+        src, p, idx, k, scale = args
+        if scale[0] != "const":
+            return NotImplemented
+        n = min(src[1] // data_eb, idx[1] // idx_eb)
+        out = []
+        for i in range(src[1] // data_eb):
+            if i >= n:
+                out.append(T.const(data_eb, 0))
+                continue
+            mb = T.slice_(k, i, 1)
+            if T.is_zero(mb):
+                out.append(T.slice_(src, i * data_eb, data_eb))
+                continue
+            ix = T.sext(T.slice_(idx, i * idx_eb, idx_eb), 64)
+            addr = T.add(p, T.mul(ix, T.const(64, scale[2])))
+            v = I.do_load(addr, data_eb, T.and_(cond, mb), 1, "avx512 gather", ins.get("loc"), suppressed=True)
+            out.append(T.select(mb, v, T.slice_(src, i * data_eb, data_eb)))
+        return T.concat(out)
+    return h
+
+
+def _scatter512(idx_eb, data_eb):
+    # (ptr, k-mask, idx, v, scale)
+    def h(I, ins, args, cond):
+        p, k, idx, v, scale = args
+        if scale[0] != "const":
+            return NotImplemented
+        n = min(v[1] // data_eb, idx[1] // idx_eb)
+        for i in range(n):
+            mb = T.slice_(k, i, 1)
+            if T.is_zero(mb):
+                continue
+            ix = T.sext(T.slice_(idx, i * idx_eb, idx_eb), 64)
+            addr = T.add(p, T.mul(ix, T.const(64, scale[2])))
+            I.do_store(addr, T.slice_(v, i * data_eb, data_eb), T.and_(cond, mb), 1, "avx512 scatter",
+                       ins.get("loc"), suppressed=True)
+        return None
+    return h
+
+
+# avx512 gather/scatter intrinsic names: dps dpd qps qpd dpi dpq qpi qpq (512) and
+# gather3div2/4/8 gather3siv2/4/8 .df .di .sf .si (VL); scatterdiv/scattersiv likewise
+for _nm, _ib, _db in (("dps", 32, 32), ("dpd", 32, 64), ("qps", 64, 32), ("qpd", 64, 64),
+                      ("dpi", 32, 32), ("dpq", 32, 64), ("qpi", 64, 32), ("qpq", 64, 64)):
+    TABLE["llvm.x86.avx512.mask.gather.%s.512" % _nm] = _gather512(_ib, _db)
+    TABLE["llvm.x86.avx512.mask.scatter.%s.512" % _nm] = _scatter512(_ib, _db)
+for _iv, _ib in (("div", 64), ("siv", 32)):
+    for _n in ("2", "4", "8"):
+        for _t, _db in (("df", 64), ("di", 64), ("sf", 32), ("si", 32)):
+            TABLE["llvm.x86.avx512.mask.gather3%s%s.%s" % (_iv, _n, _t)] = _gather512(_ib, _db)
+            TABLE["llvm.x86.avx512.mask.scatter%s%s.%s" % (_iv, _n, _t)] = _scatter512(_ib, _db)
